@@ -1416,6 +1416,14 @@ class MiniInt:
                 rng = [x for x in walk(s) if x["k"] == "VarDecl" and (x.get("name") or "").startswith("__range") and kids(x)]
                 body_ = [x for x in s.get("c", []) if x is not None][-1]
                 elems = self.seq(render(kids(rng[0])[0]).replace(" ", ""), kids(rng[0])[0], env) if (self.seq is not None and lv and rng) else None
+                if elems is None and lv and rng:
+                    r0_ = strip(kids(rng[0])[0])
+                    if r0_["k"] == "DeclRefExpr" and isinstance(env.get(r0_.get("declId")), list):
+                        elems = list(env[r0_["declId"]])                 # a local array of scalars
+                    elif r0_["k"] in ("InitListExpr", "CXXStdInitializerListExpr"):
+                        il_ = next((x for x in walk(r0_) if x["k"] == "InitListExpr"), None)
+                        if il_ is not None:
+                            elems = [self.expr(e_, env, depth) for e_ in kids(il_)]     # for (x : {a, b, c})
                 if elems is None:
                     raise AnalysisBroken("MiniInt: range of the range-for is not modelled")
                 for e_ in elems:
